@@ -507,7 +507,9 @@ pub fn apply(w: &World, st: &mut St, op: Op) -> bool {
                     if s == 2 {
                         st.certs.add_with_plutus_witness(&c.cert, &plutus_witness(w, 1, 0, RedeemerTag::new_cert(), 200 + k as u64, None))
                     } else {
-                        st.certs.add_with_native_script(&c.cert, &NativeScriptSource::new(&w.native[0]))
+                        // script credential 1 is witnessed by the two-key script (keys 0 and 3), the others by the
+                        // one-key script: a certificate's script signers then overlap the keys of other certificates
+                        st.certs.add_with_native_script(&c.cert, &NativeScriptSource::new(&w.native[if s == 1 { 1 } else { 0 }]))
                     }
                 }
             };
